@@ -119,6 +119,40 @@ func runC13(c *Ctx) {
 				}
 			}
 		}
+		if !okNC {
+			// assigned per branch (`case v1: … = false; default: … = true`): the constant false
+			// reaches a non-error return only through the "header is v1" side
+			okNC = true
+			rv1 := Reach(vsh, ReachOpts{Removed: notV1.FailEdges(vsh)})
+			if _, sites := notV1.PassEdges(vsh); len(sites) == 0 {
+				okNC = false
+			}
+			for _, r := range sinks {
+				v := r.(*ssa.Return).Results[0]
+				if b, isC := BoolConst(v); isC {
+					if !b && rv1.Reachable(r) {
+						okNC = false
+					}
+					continue
+				}
+				phi, isPhi := v.(*ssa.Phi)
+				if !isPhi {
+					okNC = false
+					continue
+				}
+				for i, e := range phi.Edges {
+					b, isC := BoolConst(e)
+					if !isC {
+						okNC = false
+						continue
+					}
+					pr := phi.Block().Preds[i]
+					if !b && len(pr.Instrs) > 0 && rv1.Reachable(pr.Instrs[len(pr.Instrs)-1]) {
+						okNC = false
+					}
+				}
+			}
+		}
 		c.Check(okNC, "C13.1-header-gates", FuncName(vsh)+"|needCheckSpaceId == !isV1", p.Pos(vsh.Pos()), "the cross-check of the space ids may be skipped only for a v1 header (which embeds both payloads)")
 		// operands of the header checks
 		for _, cs := range CallSinks(vsh, CalleeIs(verifyCid), false) {
